@@ -1,8 +1,42 @@
+/-
+Conditional writes (If-Match / If-None-Match) of the S3 model `Pithos.Model.S3`.
+
+(A) If-Match succeeds only against that ETag (`*`: only on a present key; a bogus value: never)
+(B) If-None-Match succeeds only on an absent key
+(C) a failed conditional write changes nothing but the clock
+(D) well-formedness `WF` (distinct row ids below the counter, at most one latest row per key) is an
+    invariant of every operation, hence of every reachable state
+(E) a successful write makes the key present
+(F) an If-None-Match put on an absent key of a well-formed state succeeds (given `NoNullMarker`: the latest
+    row is no null-version delete marker — true in all reachable states)
+(G) among If-None-Match writes to one key at most one wins, and after a winner all later ones fail;
+    among If-None-Match puts to an absent key exactly the first wins
+(H) `MarkersVersioned` (no delete marker is a null version) is an invariant of every operation; it gives
+    `NoNullMarker`, so (F) and (G) need no extra hypothesis in reachable states (`*_reachable`)
+
+All theorems hold for every `Quirks` setting. (A)(B)(C)(F) need no well-formedness.
+
+INTERFACE LEMMAS — the only ones that unfold definitions of `Model/S3.lean`; after a refactor of the
+model only these should need repair (the generic ones are `private`: other files of this namespace have
+their own copies under the same names):
+  `step`, `stepT` : findBucket_tick, present_tick, step_put_eq, step_del_eq, step_complete_cases,
+                step_append_eq, step_transition_cases, step_copy_cases, step_*_state (read-only ops),
+                wf_mkb, wf_rmb, wf_setVer, wf_mpu, wf_uploadPart, wf_abort, wf_putTags, wf_delTags, run_nil, run_cons,
+                mv_step (the mkb/rmb/setVer/mpu/uploadPart/abort/putTags/delTags cases)
+  `putRow`    : putRow_eq (with the local definition `lockRow`)
+  `install`   : install_snd, install_spec, install_mv
+  `unlatestCur`, `unlatest` : unlatestCur_name, unlatestCur_ver, unlatestCur_spec, unlatest_eq
+  `deleteOp`  : deleteOp_some_eq, deleteOp_none_eq (with the local `delProbe`, `delNull`, `delUnlatest`,
+                `delVersion`, `delImOk`, `dmRowOf`), deleteOp_none_deleted_ifMatch, deleteOp_bogus
+  `promote`, `maxBy` : promote_wf, promote_mv, maxBy_mem
+  `ifMatchOk` : ifMatchOk_none, ifMatchOk_bogus, ifMatchOk_star, ifMatchOk_etag
+  `replaceRow`, `addRow`, `removeRow`, `touch`, `mkRow` : *_rows, *_name, *_ver, touch_*, mkRow_* (all `rfl`)
+  `setBucket`, `findBucket` : mem_setBucket, find_setBucket, findBucket_of_setBucket, findBucket_mem, findBucket_name
+  `latestRow`, `rowByVid`, `nullRow`, `resolve` : latestRow_some, latestRow_none, latestRow_congr, rowByVid_some,
+                rowByVid_none, nullRow_eq, resolve_ok
+-/
 import Pithos.Model.S3
 namespace Pithos.S3
-
-deriving instance DecidableEq for Out
-
 def present (s : State) (b k : String) : Bool :=
   match findBucket s b with
   | some bk => (match latestRow bk k with | some r => !r.dm | none => false)
@@ -26,7 +60,7 @@ def lockRow (q : Quirks) (now : Nat) (bk : Bucket) (k : String) (inm : Bool) (im
 
 /-! ### equation lemmas (the only ones that unfold `step` / `putRow`) -/
 
-theorem findBucket_tick (s : State) (b : String) : findBucket (tick s) b = findBucket s b := rfl
+private theorem findBucket_tick (s : State) (b : String) : findBucket (tick s) b = findBucket s b := rfl
 
 theorem present_eq (s : State) (b k : String) :
     present s b k = match findBucket s b with
@@ -40,7 +74,7 @@ theorem putRow_eq (q : Quirks) (s : State) (bk : Bucket) (k : String) (n : NewOb
     putRow q s bk k n inm im =
       if !ifMatchOk im (latestRow bk k) then .error .preconditionFailed
       else if inm && live (latestRow bk k) then .error .preconditionFailed
-      else if inm && bk.ver != .enabled && (nullRow (lockRow q s.clock bk k inm im) k).isSome then
+      else if inm && bk.ver != .enabled && (nullRow (lockRow q s.clock bk k inm im) k).any (·.latest) then
         .error .preconditionFailed
       else .ok (install q s (lockRow q s.clock bk k inm im) k n) := by
   unfold putRow live lockRow; rfl
@@ -69,7 +103,7 @@ theorem step_complete_cases (q : Quirks) (s : State) (b k : String) (uid : Nat) 
       putRow q (tick s) bk0 k n inm im = .ok (s', vid) ∧
       step q s (.complete b k uid declared inm im) = (s', .wrote vid n.etag)) := by
   have hfb : findBucket (tick s) b = findBucket s b := rfl
-  simp only [step]
+  simp only [step, stepT]
   rw [show ({ s with clock := s.clock + 1 } : State) = tick s from rfl, hfb]
   split
   · exact .inl ⟨_, rfl⟩
@@ -103,7 +137,7 @@ theorem step_put_cases (q : Quirks) (s : State) (b k : String) (body : Bytes) (o
 
 /-! ### `ifMatchOk`, `live` -/
 
-theorem live_eq_true {cur : Option Row} : live cur = true ↔ ∃ r, cur = some r ∧ r.dm = false := by
+private theorem live_eq_true {cur : Option Row} : live cur = true ↔ ∃ r, cur = some r ∧ r.dm = false := by
   cases cur <;> simp [live]
 
 theorem ifMatchOk_none (cur : Option Row) : ifMatchOk .none cur = true := rfl
@@ -186,7 +220,7 @@ theorem write_cases {b k : String} {inm : Bool} {im : IfMatch} {op : Op} (hop : 
   · obtain ⟨rfl, rfl, rfl, rfl⟩ := hop; exact step_put_cases ..
   · obtain ⟨rfl, rfl, rfl, rfl⟩ := hop; exact step_complete_cases ..
 
-theorem latestRow_congr {bk0 bk : Bucket} (h : bk0.rows = bk.rows) (k : String) : latestRow bk0 k = latestRow bk k := by
+private theorem latestRow_congr {bk0 bk : Bucket} (h : bk0.rows = bk.rows) (k : String) : latestRow bk0 k = latestRow bk k := by
   simp [latestRow, h]
 
 section write
@@ -374,12 +408,1561 @@ example : (run Quirks.code {} [.mkb "b", .put "b" "k" [1] {} false .star, .put "
     = [.unit, .err .preconditionFailed, .wrote none (singleETag [1]), .wrote none (singleETag [2]),
        .err .preconditionFailed, .err .preconditionFailed, .deleted none false] := by decide
 
-/-- the hidden null version (reachable): a null version written before versioning was enabled, a
-delete marker on top of it, versioning suspended: the key is absent, yet the If-None-Match put is
-refused (`putRow`: `inm && bk.ver != .enabled && (nullRow bk1 k).isSome`) -/
-example :
-    let r := run Quirks.code {} [.mkb "b", .put "b" "k" [1] {} false .none, .setVer "b" .enabled,
-      .del "b" "k" none .none, .setVer "b" .suspended]
-    present r.1 "b" "k" = false ∧ (findBucket r.1 "b").isSome = true ∧
-    (step Quirks.code r.1 (.put "b" "k" [2] {} true .none)).2 = .err .preconditionFailed := by decide
+/-- a null version hidden under a delete marker (a null version written before versioning was enabled, a
+delete marker on top of it, versioning suspended): the key is absent and the first If-None-Match put wins
+(before the fix 373419f of the implementation it was refused: the old `putRow` tested
+`(nullRow bk1 k).isSome`, see the section "before the fix 373419f" below) -/
+example : (run Quirks.code {} [.mkb "b", .put "b" "k" [1] {} false .none, .setVer "b" .enabled,
+      .del "b" "k" none .none, .setVer "b" .suspended, .put "b" "k" [2] {} true .none,
+      .put "b" "k" [3] {} true .none]).2
+    = [.unit, .wrote none (singleETag [1]), .unit, .deleted (some (some 0)) true, .unit,
+       .wrote none (singleETag [2]), .err .preconditionFailed] := by decide
+
+/-- Well-formed bucket: row ids are pairwise distinct and below the counter, and no two rows of one
+key are both latest. -/
+def BucketWF (nextRow : Nat) (bk : Bucket) : Prop :=
+  bk.rows.Pairwise (fun a b => a.rowId ≠ b.rowId ∧ ¬ (a.key = b.key ∧ a.latest = true ∧ b.latest = true)) ∧
+  ∀ r ∈ bk.rows, r.rowId < nextRow
+def WF (s : State) : Prop := ∀ bk ∈ s.buckets, BucketWF s.nextRow bk
+
+/-! ### the working form of `BucketWF`, on the row list -/
+
+structure RowsOK (n : Nat) (rows : List Row) : Prop where
+  ids : rows.Pairwise (fun a b => a.rowId ≠ b.rowId)
+  uniq : ∀ x ∈ rows, ∀ y ∈ rows, x.key = y.key → x.latest = true → y.latest = true → x.rowId = y.rowId
+  bound : ∀ r ∈ rows, r.rowId < n
+
+/-- no row of key `k` is latest -/
+def NoLatest (rows : List Row) (k : String) : Prop := ∀ x ∈ rows, x.key = k → x.latest = false
+/-- the only row of key `k` that may be latest is the one with id `id` -/
+def OnlyLatest (rows : List Row) (k : String) (id : Nat) : Prop :=
+  ∀ x ∈ rows, x.key = k → x.latest = true → x.rowId = id
+
+private theorem pairwise_uniq {rows : List Row}
+    (h : rows.Pairwise (fun a b => a.rowId ≠ b.rowId ∧ ¬ (a.key = b.key ∧ a.latest = true ∧ b.latest = true))) :
+    ∀ x ∈ rows, ∀ y ∈ rows, x.key = y.key → x.latest = true → y.latest = true → x.rowId = y.rowId := by
+  induction rows with
+  | nil => simp
+  | cons a l ih =>
+    rw [List.pairwise_cons] at h
+    intro x hx y hy hk hlx hly
+    rcases List.mem_cons.1 hx with rfl | hx' <;> rcases List.mem_cons.1 hy with rfl | hy'
+    · rfl
+    · exact absurd ⟨hk, hlx, hly⟩ (h.1 y hy').2
+    · exact absurd ⟨hk.symm, hly, hlx⟩ (h.1 x hx').2
+    · exact ih h.2 x hx' y hy' hk hlx hly
+
+private theorem ids_inj {rows : List Row} (h : rows.Pairwise (fun a b => a.rowId ≠ b.rowId)) :
+    ∀ x ∈ rows, ∀ y ∈ rows, x.rowId = y.rowId → x = y := by
+  induction rows with
+  | nil => simp
+  | cons a l ih =>
+    rw [List.pairwise_cons] at h
+    intro x hx y hy hid
+    rcases List.mem_cons.1 hx with rfl | hx' <;> rcases List.mem_cons.1 hy with rfl | hy'
+    · rfl
+    · exact absurd hid (h.1 y hy')
+    · exact absurd hid.symm (h.1 x hx')
+    · exact ih h.2 x hx' y hy' hid
+
+theorem bucketWF_iff {n : Nat} {bk : Bucket} : BucketWF n bk ↔ RowsOK n bk.rows := by
+  constructor
+  · rintro ⟨hp, hb⟩
+    exact ⟨hp.imp fun h => h.1, pairwise_uniq hp, hb⟩
+  · rintro ⟨hi, hu, hb⟩
+    refine ⟨hi.imp_of_mem ?_, hb⟩
+    intro a b ha hb' hab
+    exact ⟨hab, fun ⟨hk, hla, hlb⟩ => hab (hu a ha b hb' hk hla hlb)⟩
+
+theorem RowsOK.inj {n rows} (h : RowsOK n rows) {x y : Row} (hx : x ∈ rows) (hy : y ∈ rows)
+    (hid : x.rowId = y.rowId) : x = y := ids_inj h.ids x hx y hy hid
+
+theorem RowsOK.mono {n m rows} (h : RowsOK n rows) (hnm : n ≤ m) : RowsOK m rows :=
+  ⟨h.ids, h.uniq, fun r hr => Nat.lt_of_lt_of_le (h.bound r hr) hnm⟩
+
+theorem RowsOK.nil (n : Nat) : RowsOK n [] := ⟨.nil, by simp, by simp⟩
+
+theorem RowsOK.filter {n rows} (h : RowsOK n rows) (p : Row → Bool) : RowsOK n (rows.filter p) :=
+  ⟨h.ids.filter p, fun x hx y hy => h.uniq x (List.mem_filter.1 hx).1 y (List.mem_filter.1 hy).1,
+   fun r hr => h.bound r (List.mem_filter.1 hr).1⟩
+
+theorem RowsOK.onlyLatest {n rows} (h : RowsOK n rows) {r : Row} (hr : r ∈ rows) (hl : r.latest = true) :
+    OnlyLatest rows r.key r.rowId := fun x hx hk hlx => h.uniq x hx r hr hk hlx hl
+
+theorem NoLatest.onlyLatest {rows k} (h : NoLatest rows k) (id : Nat) : OnlyLatest rows k id :=
+  fun x hx hk hl => by rw [h x hx hk] at hl; cases hl
+
+theorem OnlyLatest.filter {rows k id} (h : OnlyLatest rows k id) (p : Row → Bool) :
+    OnlyLatest (rows.filter p) k id := fun x hx => h x (List.mem_filter.1 hx).1
+
+theorem NoLatest.filter {rows k} (h : NoLatest rows k) (p : Row → Bool) :
+    NoLatest (rows.filter p) k := fun x hx => h x (List.mem_filter.1 hx).1
+
+/-- removing the row that may be latest leaves no latest row -/
+theorem OnlyLatest.filter_ne {rows k id} (h : OnlyLatest rows k id) :
+    NoLatest (rows.filter fun x => x.rowId != id) k := by
+  intro x hx hk
+  obtain ⟨hm, hne⟩ := List.mem_filter.1 hx
+  cases hl : x.latest
+  · rfl
+  · simp [h x hm hk hl] at hne
+
+/-- the row list after `replaceRow` -/
+def replaceRows (rows : List Row) (r : Row) : List Row := rows.map fun x => if x.rowId == r.rowId then r else x
+
+private theorem replace_fn_id (r x : Row) : (if x.rowId == r.rowId then r else x).rowId = x.rowId := by
+  split <;> simp_all
+
+theorem mem_replaceRows {rows : List Row} {r y : Row} (h : y ∈ replaceRows rows r) :
+    (y = r ∧ ∃ x ∈ rows, x.rowId = r.rowId) ∨ (y ∈ rows ∧ y.rowId ≠ r.rowId) := by
+  obtain ⟨x, hx, rfl⟩ := List.mem_map.1 h
+  by_cases hid : x.rowId = r.rowId
+  · have : (if x.rowId == r.rowId then r else x) = r := by simp [hid]
+    rw [this]; exact .inl ⟨rfl, x, hx, hid⟩
+  · have : (if x.rowId == r.rowId then r else x) = x := by simp [hid]
+    rw [this]; exact .inr ⟨hx, hid⟩
+
+theorem mem_replaceRows_of_mem {rows : List Row} {r x : Row} (hx : x ∈ rows) :
+    (if x.rowId == r.rowId then r else x) ∈ replaceRows rows r := List.mem_map.2 ⟨x, hx, rfl⟩
+
+theorem RowsOK.replace {n rows} (h : RowsOK n rows) {r : Row}
+    (hkey : ∀ x ∈ rows, x.rowId = r.rowId → x.key = r.key)
+    (hl : r.latest = true → OnlyLatest rows r.key r.rowId) : RowsOK n (replaceRows rows r) := by
+  refine ⟨?_, ?_, ?_⟩
+  · refine List.pairwise_map.2 (h.ids.imp ?_)
+    intro a b hab
+    rw [replace_fn_id, replace_fn_id]; exact hab
+  · intro x hx y hy hk hlx hly
+    rcases mem_replaceRows hx with ⟨rfl, _⟩ | ⟨hx', hxid⟩ <;> rcases mem_replaceRows hy with ⟨rfl, _⟩ | ⟨hy', hyid⟩
+    · rfl
+    · exact (hl hlx y hy' hk.symm hly).symm
+    · exact hl hly x hx' hk hlx
+    · exact h.uniq x hx' y hy' hk hlx hly
+  · intro y hy
+    rcases mem_replaceRows hy with ⟨rfl, x, hx, hid⟩ | ⟨hy, _⟩
+    · rw [← hid]; exact h.bound x hx
+    · exact h.bound y hy
+
+/-- replacing the row that may be latest by a non-latest one leaves no latest row -/
+theorem OnlyLatest.replace_noLatest {rows k} {r : Row} (h : OnlyLatest rows k r.rowId) (hr : r.latest = false) :
+    NoLatest (replaceRows rows r) k := by
+  intro y hy hk
+  rcases mem_replaceRows hy with ⟨rfl, _⟩ | ⟨hy, hid⟩
+  · exact hr
+  · cases hl : y.latest
+    · rfl
+    · exact absurd (h y hy hk hl) hid
+
+theorem NoLatest.replace {rows k} {r : Row} (h : NoLatest rows k) (hr : r.key = k → r.latest = false) :
+    NoLatest (replaceRows rows r) k := by
+  intro y hy hk
+  rcases mem_replaceRows hy with ⟨rfl, _⟩ | ⟨hy, _⟩
+  · exact hr hk
+  · exact h y hy hk
+
+theorem RowsOK.append {n rows} (h : RowsOK n rows) {r : Row} (hid : r.rowId = n)
+    (hl : r.latest = true → NoLatest rows r.key) : RowsOK (n + 1) (rows ++ [r]) := by
+  refine ⟨?_, ?_, ?_⟩
+  · refine List.pairwise_append.2 ⟨h.ids, List.pairwise_singleton _ _, ?_⟩
+    intro a ha b hb
+    rw [List.mem_singleton.1 hb, hid]; exact Nat.ne_of_lt (h.bound a ha)
+  · intro x hx y hy hk hlx hly
+    rcases List.mem_append.1 hx with hx | hx <;> rcases List.mem_append.1 hy with hy | hy
+    · exact h.uniq x hx y hy hk hlx hly
+    · rw [List.mem_singleton.1 hy] at hk hly
+      rw [hl hly x hx hk] at hlx; cases hlx
+    · rw [List.mem_singleton.1 hx] at hk hlx
+      rw [hl hlx y hy hk.symm] at hly; cases hly
+    · rw [List.mem_singleton.1 hx, List.mem_singleton.1 hy]
+  · intro y hy
+    rcases List.mem_append.1 hy with hy | hy
+    · exact Nat.lt_succ_of_lt (h.bound y hy)
+    · rw [List.mem_singleton.1 hy, hid]; exact Nat.lt_succ_self n
+
+/-! ### interface lemmas: row lists of the bucket operations -/
+
+private theorem replaceRow_rows (bk : Bucket) (r : Row) : (replaceRow bk r).rows = replaceRows bk.rows r := rfl
+private theorem replaceRow_name (bk : Bucket) (r : Row) : (replaceRow bk r).name = bk.name := rfl
+private theorem replaceRow_ver (bk : Bucket) (r : Row) : (replaceRow bk r).ver = bk.ver := rfl
+private theorem addRow_rows (bk : Bucket) (r : Row) : (addRow bk r).rows = bk.rows ++ [r] := rfl
+private theorem addRow_name (bk : Bucket) (r : Row) : (addRow bk r).name = bk.name := rfl
+private theorem addRow_ver (bk : Bucket) (r : Row) : (addRow bk r).ver = bk.ver := rfl
+private theorem removeRow_rows (bk : Bucket) (id : Nat) : (removeRow bk id).rows = bk.rows.filter fun x => x.rowId != id := rfl
+private theorem removeRow_name (bk : Bucket) (id : Nat) : (removeRow bk id).name = bk.name := rfl
+private theorem removeRow_ver (bk : Bucket) (id : Nat) : (removeRow bk id).ver = bk.ver := rfl
+
+private theorem touch_rowId (q : Quirks) (now : Nat) (r : Row) : (touch q now r).rowId = r.rowId := rfl
+private theorem touch_key (q : Quirks) (now : Nat) (r : Row) : (touch q now r).key = r.key := rfl
+private theorem touch_latest (q : Quirks) (now : Nat) (r : Row) : (touch q now r).latest = r.latest := rfl
+private theorem touch_vid (q : Quirks) (now : Nat) (r : Row) : (touch q now r).vid = r.vid := rfl
+private theorem touch_dm (q : Quirks) (now : Nat) (r : Row) : (touch q now r).dm = r.dm := rfl
+
+/-- the row `unlatest` writes -/
+def unlatestRow (q : Quirks) (now : Nat) (r : Row) : Row :=
+  { r with latest := false, updated := if q.touchOnAnySave then now else r.updated }
+private theorem unlatest_eq (q : Quirks) (now : Nat) (bk : Bucket) (r : Row) :
+    unlatest q now bk r = replaceRow bk (unlatestRow q now r) := rfl
+private theorem unlatestRow_rowId (q : Quirks) (now : Nat) (r : Row) : (unlatestRow q now r).rowId = r.rowId := rfl
+private theorem unlatestRow_key (q : Quirks) (now : Nat) (r : Row) : (unlatestRow q now r).key = r.key := rfl
+private theorem unlatestRow_latest (q : Quirks) (now : Nat) (r : Row) : (unlatestRow q now r).latest = false := rfl
+private theorem unlatestRow_vid (q : Quirks) (now : Nat) (r : Row) : (unlatestRow q now r).vid = r.vid := rfl
+
+private theorem mkRow_rowId (id : Nat) (k : String) (v : Option Nat) (c now : Nat) (n : NewObj) : (mkRow id k v c now n).rowId = id := rfl
+private theorem mkRow_key (id : Nat) (k : String) (v : Option Nat) (c now : Nat) (n : NewObj) : (mkRow id k v c now n).key = k := rfl
+private theorem mkRow_latest (id : Nat) (k : String) (v : Option Nat) (c now : Nat) (n : NewObj) : (mkRow id k v c now n).latest = true := rfl
+private theorem mkRow_dm (id : Nat) (k : String) (v : Option Nat) (c now : Nat) (n : NewObj) : (mkRow id k v c now n).dm = false := rfl
+private theorem mkRow_etag (id : Nat) (k : String) (v : Option Nat) (c now : Nat) (n : NewObj) : (mkRow id k v c now n).etag = n.etag := rfl
+private theorem mkRow_vid (id : Nat) (k : String) (v : Option Nat) (c now : Nat) (n : NewObj) : (mkRow id k v c now n).vid = v := rfl
+
+/-! ### interface lemmas: lookups -/
+
+private theorem latestRow_some {bk : Bucket} {k : String} {r : Row} (h : latestRow bk k = some r) :
+    r ∈ bk.rows ∧ r.key = k ∧ r.latest = true := by
+  unfold latestRow at h
+  have h1 := List.mem_of_find?_eq_some h
+  have h2 := List.find?_some h
+  simp at h2
+  exact ⟨h1, h2.1, h2.2⟩
+
+private theorem latestRow_none {bk : Bucket} {k : String} (h : latestRow bk k = none) : NoLatest bk.rows k := by
+  unfold latestRow at h
+  intro x hx hk
+  have := List.find?_eq_none.1 h x hx
+  simp [hk] at this
+  exact this
+
+private theorem latestRow_of_forall {bk : Bucket} {k : String} {P : Row → Prop}
+    (hex : ∃ x ∈ bk.rows, x.key = k ∧ x.latest = true)
+    (hall : ∀ x ∈ bk.rows, x.key = k → x.latest = true → P x) : ∃ r, latestRow bk k = some r ∧ P r := by
+  cases h : latestRow bk k with
+  | none =>
+    obtain ⟨x, hx, hk, hl⟩ := hex
+    rw [latestRow_none h x hx hk] at hl; cases hl
+  | some r =>
+    obtain ⟨hr, hk, hl⟩ := latestRow_some h
+    exact ⟨r, rfl, hall r hr hk hl⟩
+
+private theorem rowByVid_some {bk : Bucket} {k : String} {v : Option Nat} {r : Row} (h : rowByVid bk k v = some r) :
+    r ∈ bk.rows ∧ r.key = k ∧ r.vid = v := by
+  unfold rowByVid at h
+  have h1 := List.mem_of_find?_eq_some h
+  have h2 := List.find?_some h
+  simp at h2
+  exact ⟨h1, h2.1, h2.2⟩
+
+private theorem rowByVid_none {bk : Bucket} {k : String} {v : Option Nat} (h : rowByVid bk k v = none) :
+    ∀ x ∈ bk.rows, x.key = k → x.vid ≠ v := by
+  unfold rowByVid at h
+  intro x hx hk
+  have := List.find?_eq_none.1 h x hx
+  simpa [hk] using this
+
+private theorem rowByVid_isSome_of_mem {bk : Bucket} {k : String} {v : Option Nat} {x : Row} (hx : x ∈ bk.rows)
+    (hk : x.key = k) (hv : x.vid = v) : (rowByVid bk k v).isSome = true := by
+  cases h : rowByVid bk k v with
+  | none => exact absurd hv (rowByVid_none h x hx hk)
+  | some r => rfl
+
+private theorem nullRow_eq (bk : Bucket) (k : String) : nullRow bk k = rowByVid bk k none := rfl
+
+private theorem resolve_ok {bk : Bucket} {k : String} {vid : Option (Option Nat)} {r : Row} (h : resolve bk k vid = .ok r) :
+    r ∈ bk.rows ∧ r.key = k := by
+  unfold resolve at h
+  cases vid with
+  | none =>
+    simp only at h
+    split at h
+    · cases h
+    · rename_i r' hr'
+      split at h
+      · cases h
+      · cases h; exact ⟨(latestRow_some hr').1, (latestRow_some hr').2.1⟩
+  | some v =>
+    simp only at h
+    split at h
+    · cases h
+    · rename_i r' hr'
+      split at h
+      · cases h
+      · cases h; exact ⟨(rowByVid_some hr').1, (rowByVid_some hr').2.1⟩
+
+/-! ### bucket-level well-formedness -/
+
+theorem BucketWF.of_rows {n : Nat} {bk bk' : Bucket} (h : BucketWF n bk) (hr : bk'.rows = bk.rows) : BucketWF n bk' := by
+  unfold BucketWF at *; rw [hr]; exact h
+
+theorem BucketWF.mono {n m : Nat} {bk : Bucket} (h : BucketWF n bk) (hnm : n ≤ m) : BucketWF m bk :=
+  bucketWF_iff.2 ((bucketWF_iff.1 h).mono hnm)
+
+theorem BucketWF.removeRow {n : Nat} {bk : Bucket} (h : BucketWF n bk) (id : Nat) : BucketWF n (removeRow bk id) :=
+  bucketWF_iff.2 (by rw [removeRow_rows]; exact (bucketWF_iff.1 h).filter _)
+
+/-- replacing a row by one with the same id and key that is latest only if the old one was -/
+theorem BucketWF.replaceRow_same {n : Nat} {bk : Bucket} (h : BucketWF n bk) {r0 r : Row} (h0 : r0 ∈ bk.rows)
+    (hid : r.rowId = r0.rowId) (hk : r.key = r0.key) (hl : r.latest = true → r0.latest = true) :
+    BucketWF n (replaceRow bk r) := by
+  have ok := bucketWF_iff.1 h
+  refine bucketWF_iff.2 ?_
+  rw [replaceRow_rows]
+  refine ok.replace ?_ ?_
+  · intro x hx hxid
+    rw [ok.inj hx h0 (hxid.trans hid), hk]
+  · intro hlr
+    rw [hk, hid]; exact ok.onlyLatest h0 (hl hlr)
+
+/-- replacing a row of key `k` by a latest one, when no other row of `k` is latest -/
+theorem BucketWF.replaceRow_latest {n : Nat} {bk : Bucket} (h : BucketWF n bk) {r0 r : Row} (h0 : r0 ∈ bk.rows)
+    (hid : r.rowId = r0.rowId) (hk : r.key = r0.key) (hl : OnlyLatest bk.rows r0.key r0.rowId) :
+    BucketWF n (replaceRow bk r) := by
+  have ok := bucketWF_iff.1 h
+  refine bucketWF_iff.2 ?_
+  rw [replaceRow_rows]
+  refine ok.replace ?_ ?_
+  · intro x hx hxid
+    rw [ok.inj hx h0 (hxid.trans hid), hk]
+  · intro _
+    rw [hk, hid]; exact hl
+
+theorem BucketWF.addRow {n : Nat} {bk : Bucket} (h : BucketWF n bk) {r : Row} (hid : r.rowId = n)
+    (hl : r.latest = true → NoLatest bk.rows r.key) : BucketWF (n + 1) (addRow bk r) :=
+  bucketWF_iff.2 (by rw [addRow_rows]; exact (bucketWF_iff.1 h).append hid hl)
+
+/-! ### state-level -/
+
+theorem wf_tick {s : State} : WF (tick s) ↔ WF s := Iff.rfl
+
+private theorem findBucket_mem {s : State} {b : String} {bk : Bucket} (h : findBucket s b = some bk) : bk ∈ s.buckets :=
+  List.mem_of_find?_eq_some h
+
+private theorem findBucket_name {s : State} {b : String} {bk : Bucket} (h : findBucket s b = some bk) : bk.name = b := by
+  have := List.find?_some h
+  simpa using this
+
+theorem WF.bucket {s : State} {b : String} {bk : Bucket} (h : WF s) (hf : findBucket s b = some bk) :
+    BucketWF s.nextRow bk := h bk (findBucket_mem hf)
+
+private theorem mem_setBucket {s : State} {bk' x : Bucket} (h : x ∈ (setBucket s bk').buckets) : x ∈ s.buckets ∨ x = bk' := by
+  unfold setBucket at h
+  obtain ⟨y, hy, rfl⟩ := List.mem_map.1 h
+  split
+  · exact .inr rfl
+  · exact .inl hy
+
+/-- a state whose bucket list is `setBucket s bk'` and whose row counter did not decrease is well-formed
+when `bk'` is -/
+theorem wf_of_setBucket {s s' : State} {bk' : Bucket} (h : WF s) (hb : s'.buckets = (setBucket s bk').buckets)
+    (hn : s.nextRow ≤ s'.nextRow) (hbk : BucketWF s'.nextRow bk') : WF s' := by
+  intro x hx
+  rw [hb] at hx
+  rcases mem_setBucket hx with hx | rfl
+  · exact (h x hx).mono hn
+  · exact hbk
+
+private theorem find_setBucket (l : List Bucket) (b : String) (bk bk' : Bucket) (hf : l.find? (·.name == b) = some bk)
+    (hn : bk'.name = bk.name) :
+    (l.map fun x => if x.name == bk'.name then bk' else x).find? (·.name == b) = some bk' := by
+  have hbn : bk.name = b := by simpa using List.find?_some hf
+  induction l with
+  | nil => simp at hf
+  | cons x l ih =>
+    rw [List.find?_cons] at hf
+    rw [List.map_cons, List.find?_cons]
+    by_cases hx : x.name = b
+    · simp only [hx, beq_self_eq_true] at hf
+      cases hf
+      simp [hn, hbn]
+    · have hx' : (x.name == b) = false := by simpa using hx
+      rw [hx'] at hf
+      have : (if x.name == bk'.name then bk' else x) = x := by
+        rw [hn, hbn, hx']; rfl
+      rw [this, hx']
+      exact ih hf
+
+theorem findBucket_of_setBucket {s s' : State} {b : String} {bk bk' : Bucket}
+    (hb : s'.buckets = (setBucket s bk').buckets) (hf : findBucket s b = some bk) (hn : bk'.name = bk.name) :
+    findBucket s' b = some bk' := by
+  unfold findBucket; rw [hb]; exact find_setBucket _ b bk bk' hf hn
+
+/-! ### `latestRow` after adding / replacing a latest row -/
+
+theorem latestRow_addRow_latest {bk : Bucket} {k : String} {r : Row} (hno : NoLatest bk.rows k) (hk : r.key = k)
+    (hl : r.latest = true) : latestRow (addRow bk r) k = some r := by
+  obtain ⟨r', hr', rfl⟩ := latestRow_of_forall (bk := addRow bk r) (k := k) (P := fun x => x = r)
+    ⟨r, by rw [addRow_rows]; simp, hk, hl⟩ (by
+      intro x hx hxk hxl
+      rw [addRow_rows] at hx
+      rcases List.mem_append.1 hx with hx | hx
+      · rw [hno x hx hxk] at hxl; cases hxl
+      · exact List.mem_singleton.1 hx)
+  exact hr'
+
+theorem latestRow_replaceRow_latest {bk : Bucket} {k : String} {r : Row} (hno : NoLatest bk.rows k)
+    (hex : ∃ x ∈ bk.rows, x.rowId = r.rowId) (hk : r.key = k) (hl : r.latest = true) :
+    latestRow (replaceRow bk r) k = some r := by
+  obtain ⟨x0, hx0, hid0⟩ := hex
+  obtain ⟨r', hr', rfl⟩ := latestRow_of_forall (bk := replaceRow bk r) (k := k) (P := fun x => x = r)
+    ⟨r, by
+      rw [replaceRow_rows]
+      have := mem_replaceRows_of_mem (r := r) hx0
+      simpa [hid0] using this, hk, hl⟩ (by
+      intro x hx hxk hxl
+      rw [replaceRow_rows] at hx
+      rcases mem_replaceRows hx with ⟨rfl, _⟩ | ⟨hx, _⟩
+      · rfl
+      · rw [hno x hx hxk] at hxl; cases hxl)
+  exact hr'
+
+/-! ### `unlatestCur` -/
+
+private theorem unlatestCur_name (q : Quirks) (now : Nat) (bk : Bucket) (k : String) : (unlatestCur q now bk k).name = bk.name := by
+  unfold unlatestCur; split <;> rfl
+private theorem unlatestCur_ver (q : Quirks) (now : Nat) (bk : Bucket) (k : String) : (unlatestCur q now bk k).ver = bk.ver := by
+  unfold unlatestCur; split <;> rfl
+
+/-- after `unlatestCur` the bucket is still well-formed, no row of `k` is latest, and every row is
+still there under its id and key -/
+theorem unlatestCur_spec {n : Nat} {bk : Bucket} (q : Quirks) (now : Nat) (k : String) (h : BucketWF n bk) :
+    BucketWF n (unlatestCur q now bk k) ∧ NoLatest (unlatestCur q now bk k).rows k ∧
+    ∀ x ∈ bk.rows, ∃ x' ∈ (unlatestCur q now bk k).rows, x'.rowId = x.rowId ∧ x'.key = x.key := by
+  have ok := bucketWF_iff.1 h
+  unfold unlatestCur
+  split
+  · rename_i r hr
+    obtain ⟨hmem, hk, hl⟩ := latestRow_some hr
+    rw [unlatest_eq]
+    refine ⟨h.replaceRow_same hmem rfl rfl (fun h => by cases h), ?_, ?_⟩
+    · rw [replaceRow_rows]
+      refine OnlyLatest.replace_noLatest ?_ rfl
+      rw [← hk]; exact ok.onlyLatest hmem hl
+    · intro x hx
+      refine ⟨_, by rw [replaceRow_rows]; exact mem_replaceRows_of_mem (r := unlatestRow q now r) hx, replace_fn_id _ _, ?_⟩
+      split
+      · rename_i hid
+        rw [ok.inj hx hmem (by simpa [unlatestRow_rowId] using hid)]; rfl
+      · rfl
+  · rename_i hr
+    exact ⟨h, latestRow_none hr, fun x hx => ⟨x, hx, rfl, rfl⟩⟩
+
+/-! ### `install` -/
+
+theorem install_snd (q : Quirks) (s : State) (bk : Bucket) (k : String) (n : NewObj) :
+    (install q s bk k n).2 = if bk.ver = .enabled then some s.nextVid else none := by
+  unfold install
+  by_cases hv : bk.ver = .enabled
+  · simp [hv, mkRow_vid]
+  · simp only [beq_iff_eq, hv, if_false]
+    split <;> rfl
+
+/-- `install` replaces the bucket by a well-formed one (same name and versioning state) in which
+the latest row of `k` is the new object; the row counter does not decrease -/
+theorem install_spec (q : Quirks) (s : State) (bk : Bucket) (k : String) (n : NewObj) (h : BucketWF s.nextRow bk) :
+    ∃ bk', (install q s bk k n).1.buckets = (setBucket s bk').buckets ∧ bk'.name = bk.name ∧ bk'.ver = bk.ver ∧
+      s.nextRow ≤ (install q s bk k n).1.nextRow ∧ BucketWF (install q s bk k n).1.nextRow bk' ∧
+      ∃ r, latestRow bk' k = some r ∧ r.dm = false ∧ r.etag = n.etag := by
+  obtain ⟨hwf2, hno, hsh⟩ := unlatestCur_spec q s.clock k h
+  unfold install
+  simp only []
+  split
+  · -- versioning enabled: a new row
+    refine ⟨_, rfl, ?_, ?_, Nat.le_succ _, hwf2.addRow (mkRow_rowId ..) (fun _ => hno), _,
+      latestRow_addRow_latest hno (mkRow_key ..) (mkRow_latest ..), mkRow_dm .., mkRow_etag ..⟩
+    · rw [addRow_name, unlatestCur_name]
+    · rw [addRow_ver, unlatestCur_ver]
+  · split
+    · -- the null version is replaced in place
+      rename_i nr hnr
+      obtain ⟨hmem, hk, _⟩ := rowByVid_some (nullRow_eq bk k ▸ hnr)
+      obtain ⟨x', hx', hid', hk'⟩ := hsh nr hmem
+      refine ⟨_, rfl, ?_, ?_, Nat.le_refl _, ?_, _,
+        latestRow_replaceRow_latest hno ⟨x', hx', hid'⟩ (mkRow_key ..) (mkRow_latest ..), mkRow_dm .., mkRow_etag ..⟩
+      · rw [replaceRow_name, unlatestCur_name]
+      · rw [replaceRow_ver, unlatestCur_ver]
+      · refine hwf2.replaceRow_latest hx' (by rw [mkRow_rowId, hid']) (by rw [mkRow_key, hk', hk]) ?_
+        rw [hk', hk]; exact hno.onlyLatest _
+    · -- no null version: a new row
+      refine ⟨_, rfl, ?_, ?_, Nat.le_succ _, hwf2.addRow (mkRow_rowId ..) (fun _ => hno), _,
+        latestRow_addRow_latest hno (mkRow_key ..) (mkRow_latest ..), mkRow_dm .., mkRow_etag ..⟩
+      · rw [addRow_name, unlatestCur_name]
+      · rw [addRow_ver, unlatestCur_ver]
+
+/-! ### `putRow`: the conditional-write lock and the successful case -/
+
+theorem lockRow_name (q : Quirks) (now : Nat) (bk : Bucket) (k : String) (inm : Bool) (im : IfMatch) :
+    (lockRow q now bk k inm im).name = bk.name := by
+  unfold lockRow; split
+  · split <;> rfl
+  · rfl
+
+theorem lockRow_ver (q : Quirks) (now : Nat) (bk : Bucket) (k : String) (inm : Bool) (im : IfMatch) :
+    (lockRow q now bk k inm im).ver = bk.ver := by
+  unfold lockRow; split
+  · split <;> rfl
+  · rfl
+
+theorem lockRow_wf {n : Nat} {bk : Bucket} (q : Quirks) (now : Nat) (k : String) (inm : Bool) (im : IfMatch)
+    (h : BucketWF n bk) : BucketWF n (lockRow q now bk k inm im) := by
+  unfold lockRow; split
+  · rename_i r hr
+    split
+    · exact h.replaceRow_same (latestRow_some hr).1 (touch_rowId ..) (touch_key ..) (fun h => h)
+    · exact h
+  · exact h
+
+/-- a successful `putRow` replaces the bucket by a well-formed one (same name and versioning state) in
+which the latest row of `k` is the new object; the row counter does not decrease -/
+theorem putRow_ok_spec {q : Quirks} {s : State} {bk : Bucket} {k : String} {n : NewObj} {inm : Bool} {im : IfMatch}
+    {s' : State} {vid : Option Nat} (hp : putRow q s bk k n inm im = .ok (s', vid)) (h : BucketWF s.nextRow bk) :
+    ∃ bk', s'.buckets = (setBucket s bk').buckets ∧ bk'.name = bk.name ∧ bk'.ver = bk.ver ∧
+      s.nextRow ≤ s'.nextRow ∧ BucketWF s'.nextRow bk' ∧
+      (∃ r, latestRow bk' k = some r ∧ r.dm = false ∧ r.etag = n.etag) ∧
+      vid = if bk.ver = .enabled then some s.nextVid else none := by
+  have hi := putRow_ok_install hp
+  obtain ⟨bk', h1, h2, h3, h4, h5, h6⟩ := install_spec q s _ k n (lockRow_wf q s.clock k inm im h)
+  have hs' : s' = (install q s (lockRow q s.clock bk k inm im) k n).1 := by rw [← hi]
+  have hv : vid = (install q s (lockRow q s.clock bk k inm im) k n).2 := by rw [← hi]
+  refine ⟨bk', hs' ▸ h1, h2.trans (lockRow_name ..), h3.trans (lockRow_ver ..), hs' ▸ h4, hs' ▸ h5, h6, ?_⟩
+  rw [hv, install_snd, lockRow_ver]
+
+theorem putRow_ok_wf {q : Quirks} {s : State} {bk : Bucket} {k : String} {n : NewObj} {inm : Bool} {im : IfMatch}
+    {s' : State} {vid : Option Nat} (hp : putRow q s bk k n inm im = .ok (s', vid)) (hwf : WF s)
+    (h : BucketWF s.nextRow bk) : WF s' := by
+  obtain ⟨bk', h1, _, _, h4, h5, _⟩ := putRow_ok_spec hp h
+  exact wf_of_setBucket hwf h1 h4 h5
+
+/-! ### (D) for writes, (E) -/
+
+section write
+variable {b k : String} {inm : Bool} {im : IfMatch} {op : Op} {q : Quirks} {s : State}
+
+theorem write_wrote_spec (hop : IsWrite b k inm im op) (hwf : WF s) {vid et} (h : (step q s op).2 = .wrote vid et) :
+    WF (step q s op).1 ∧ present (step q s op).1 b k = true := by
+  rcases write_cases hop q s with ⟨e, he⟩ | ⟨bk, bk0, n, s', v, hbk, hname, _, hrows, hp, he⟩
+  · rw [he] at h; cases h
+  · have hbwf : BucketWF (tick s).nextRow bk0 := (hwf.bucket hbk).of_rows hrows
+    obtain ⟨bk', h1, h2, _, h4, h5, ⟨r, hr, hdm, _⟩, _⟩ := putRow_ok_spec hp hbwf
+    rw [he]
+    refine ⟨wf_of_setBucket (wf_tick.2 hwf) h1 h4 h5, ?_⟩
+    have hf : findBucket s' b = some bk' :=
+      findBucket_of_setBucket h1 ((findBucket_tick s b).trans hbk) (h2.trans hname)
+    simp only [present_eq, hf, hr, live, hdm]; rfl
+
+theorem write_wf (hop : IsWrite b k inm im op) (hwf : WF s) : WF (step q s op).1 := by
+  rcases write_out_cases (q := q) (s := s) hop with ⟨e, he⟩ | ⟨vid, et, h⟩
+  · rw [write_err_state hop he]; exact wf_tick.2 hwf
+  · exact (write_wrote_spec hop hwf h).1
+end write
+
+theorem put_wrote_present (q : Quirks) (s : State) (b k : String) (body : Bytes) (o : WriteOpts) (inm : Bool)
+    (im : IfMatch) (vid : Option Nat) (et : ETag) (hwf : WF s)
+    (h : (step q s (.put b k body o inm im)).2 = .wrote vid et) :
+    present (step q s (.put b k body o inm im)).1 b k = true :=
+  (write_wrote_spec (isWrite_put ..) hwf h).2
+
+theorem complete_wrote_present (q : Quirks) (s : State) (b k : String) (uid : Nat) (declared : Option (List Nat))
+    (inm : Bool) (im : IfMatch) (vid : Option Nat) (et : ETag) (hwf : WF s)
+    (h : (step q s (.complete b k uid declared inm im)).2 = .wrote vid et) :
+    present (step q s (.complete b k uid declared inm im)).1 b k = true :=
+  (write_wrote_spec (isWrite_complete ..) hwf h).2
+
+/-! ### (G) at most one If-None-Match winner -/
+
+private theorem run_nil (q : Quirks) (s : State) : run q s [] = (s, []) := rfl
+private theorem run_cons (q : Quirks) (s : State) (op : Op) (ops : List Op) :
+    run q s (op :: ops) = ((run q (step q s op).1 ops).1, (step q s op).2 :: (run q (step q s op).1 ops).2) := rfl
+
+/-- while the key is present every If-None-Match write fails (and the key stays present) -/
+theorem inm_present_all_fail (q : Quirks) (b k : String) (ops : List Op) (s : State) (hp : present s b k = true)
+    (hops : ∀ op ∈ ops, IsInmWrite b k op) : ∀ o ∈ (run q s ops).2, o.isWrote = false := by
+  induction ops generalizing s with
+  | nil => simp [run_nil]
+  | cons op ops ih =>
+    obtain ⟨im, hop⟩ := (hops op (List.mem_cons_self ..)).isWrite
+    rw [run_cons]
+    intro o ho
+    rcases write_out_cases (q := q) (s := s) hop with ⟨e, he⟩ | ⟨vid, et, h⟩
+    · rcases List.mem_cons.1 ho with rfl | ho'
+      · rw [he]; rfl
+      · refine ih _ ?_ (fun op' h' => hops op' (List.mem_cons_of_mem _ h')) o ho'
+        rw [write_err_state hop he, present_tick]; exact hp
+    · rw [write_wrote_inm hop h] at hp; cases hp
+
+private theorem filter_isWrote_eq_nil {l : List Out} (h : ∀ o ∈ l, o.isWrote = false) : l.filter Out.isWrote = [] :=
+  List.filter_eq_nil_iff.2 fun o ho => by simp [h o ho]
+
+theorem inm_at_most_one_winner (q : Quirks) (s : State) (b k : String) (ops : List Op) (hwf : WF s)
+    (hops : ∀ op ∈ ops, IsInmWrite b k op) : ((run q s ops).2.filter Out.isWrote).length ≤ 1 := by
+  induction ops generalizing s with
+  | nil => simp [run_nil]
+  | cons op ops ih =>
+    obtain ⟨im, hop⟩ := (hops op (List.mem_cons_self ..)).isWrite
+    have hops' : ∀ op' ∈ ops, IsInmWrite b k op' := fun op' h' => hops op' (List.mem_cons_of_mem _ h')
+    rw [run_cons]
+    rcases write_out_cases (q := q) (s := s) hop with ⟨e, he⟩ | ⟨vid, et, h⟩
+    · have : ((step q s op).2 :: (run q (step q s op).1 ops).2).filter Out.isWrote
+          = (run q (step q s op).1 ops).2.filter Out.isWrote := by rw [he]; rfl
+      rw [this]
+      exact ih _ (write_wf hop hwf) hops'
+    · have hrest := filter_isWrote_eq_nil
+        (inm_present_all_fail q b k ops _ (write_wrote_spec hop hwf h).2 hops')
+      rw [List.filter_cons, hrest]
+      split <;> simp
+
+/-- once one If-None-Match write succeeded, all later ones fail -/
+theorem inm_winner_then_all_fail (q : Quirks) (s : State) (b k : String) (ops : List Op) (hwf : WF s)
+    (hops : ∀ op ∈ ops, IsInmWrite b k op) :
+    (run q s ops).2.Pairwise fun o o' => o.isWrote = true → o'.isWrote = false := by
+  induction ops generalizing s with
+  | nil => simp [run_nil]
+  | cons op ops ih =>
+    obtain ⟨im, hop⟩ := (hops op (List.mem_cons_self ..)).isWrite
+    have hops' : ∀ op' ∈ ops, IsInmWrite b k op' := fun op' h' => hops op' (List.mem_cons_of_mem _ h')
+    rw [run_cons]
+    refine List.pairwise_cons.2 ⟨?_, ih _ (write_wf hop hwf) hops'⟩
+    intro o' ho' hw
+    rcases write_out_cases (q := q) (s := s) hop with ⟨e, he⟩ | ⟨vid, et, h⟩
+    · rw [he] at hw; cases hw
+    · exact inm_present_all_fail q b k ops _ (write_wrote_spec hop hwf h).2 hops' o' ho'
+
+/-! ### (D) `deleteOp` (interface: the two equations below mirror `deleteOp`) -/
+
+/-- the versioned delete: un-latest the current row if it is still there -/
+def delUnlatest (q : Quirks) (now : Nat) (bk bk1 : Bucket) (k : String) : Bucket :=
+  match latestRow bk k with
+  | some r => if (bk1.rows.any (·.rowId == r.rowId)) then unlatest q now bk1 r else bk1
+  | none => bk1
+
+/-- a suspended bucket drops its null version before the delete marker is written -/
+def delNull (bk : Bucket) (k : String) : Bucket :=
+  if bk.ver == .suspended then
+    match nullRow bk k with | some n => removeRow bk n.rowId | none => bk
+  else bk
+
+def dmRowOf (s : State) (k : String) : Row :=
+  { rowId := s.nextRow, key := k, vid := some s.nextVid, dm := true, latest := true,
+    created := s.clock, updated := s.clock, wrote := s.clock }
+
+/-- the bucket after deleting version row `r` -/
+def delVersion (q : Quirks) (now : Nat) (bk : Bucket) (k : String) (r : Row) : Bucket :=
+  if r.latest then promote q now (removeRow bk r.rowId) k else removeRow bk r.rowId
+
+def delImOk (im : IfMatch) (r : Row) : Bool :=
+  match im with
+  | .none => true | .star => true
+  | .etag e => !r.dm && r.etag == e
+  | .bogus => false
+
+theorem deleteOp_some_eq (q : Quirks) (s : State) (bk : Bucket) (k : String) (v : Option Nat) (im : IfMatch) :
+    deleteOp q s bk k (some v) im =
+      if (rowByVid bk k v).isNone && !((some v).isNone && bk.ver != .off) then
+        if im != .none then (s, .err .preconditionFailed) else (s, .deleted none false)
+      else
+        match rowByVid bk k v with
+        | none => (s, .deleted (some v) false)
+        | some r =>
+          if !delImOk im r then (s, .err .preconditionFailed)
+          else (setBucket s (delVersion q s.clock bk k r), .deleted (some r.vid) r.dm) := rfl
+
+/-- the storage-layer probe of a delete without version id -/
+def delProbe (bk : Bucket) (k : String) : Option Row :=
+  if bk.ver == .suspended then nullRow bk k else latestRow bk k
+
+theorem deleteOp_none_eq (q : Quirks) (s : State) (bk : Bucket) (k : String) (im : IfMatch) :
+    deleteOp q s bk k none im =
+      if (delProbe bk k).isNone && !((none : Option (Option Nat)).isNone && bk.ver != .off) then
+        if im != .none then (s, .err .preconditionFailed) else (s, .deleted none false)
+      else if !ifMatchOk im (latestRow bk k) then (s, .err .preconditionFailed)
+      else if bk.ver != .off then
+        ({ setBucket s (addRow (delUnlatest q s.clock bk (delNull bk k) k) (dmRowOf s k)) with
+            nextVid := s.nextVid + 1, nextRow := s.nextRow + 1 },
+         .deleted (some (some s.nextVid)) true)
+      else
+        match latestRow bk k with
+        | some r => (setBucket s (removeRow bk r.rowId), .deleted none false)
+        | none => (s, .deleted none false) := rfl
+
+private theorem maxBy_mem {f : Row → Nat} {l : List Row} {r : Row} (h : maxBy f l = some r) : r ∈ l := by
+  induction l generalizing r with
+  | nil => cases h
+  | cons a l ih =>
+    unfold maxBy at h
+    split at h
+    · cases h; exact List.mem_cons_self ..
+    · rename_i m hm
+      split at h
+      · cases h; exact List.mem_cons_of_mem _ (ih hm)
+      · cases h; exact List.mem_cons_self ..
+
+theorem promote_wf {n : Nat} {bk : Bucket} (q : Quirks) (now : Nat) {k : String} (h : BucketWF n bk)
+    (hno : NoLatest bk.rows k) : BucketWF n (promote q now bk k) := by
+  unfold promote
+  simp only []
+  split
+  · exact h
+  · rename_i r hr
+    have hm := List.mem_filter.1 (maxBy_mem hr)
+    have hk : r.key = k := by simpa using hm.2
+    refine h.replaceRow_latest hm.1 rfl rfl ?_
+    rw [hk]; exact hno.onlyLatest _
+
+theorem delVersion_wf {n : Nat} {bk : Bucket} (q : Quirks) (now : Nat) {k : String} {r : Row} (h : BucketWF n bk)
+    (hmem : r ∈ bk.rows) (hk : r.key = k) : BucketWF n (delVersion q now bk k r) := by
+  unfold delVersion
+  split
+  · rename_i hl
+    refine promote_wf q _ (h.removeRow _) ?_
+    rw [removeRow_rows, ← hk]
+    exact ((bucketWF_iff.1 h).onlyLatest hmem hl).filter_ne
+  · exact h.removeRow _
+
+theorem delNull_wf {n : Nat} {bk : Bucket} (k : String) (h : BucketWF n bk) :
+    BucketWF n (delNull bk k) ∧ ∀ x ∈ (delNull bk k).rows, x ∈ bk.rows := by
+  unfold delNull
+  split
+  · split
+    · exact ⟨h.removeRow _, fun x hx => by rw [removeRow_rows] at hx; exact (List.mem_filter.1 hx).1⟩
+    · exact ⟨h, fun x hx => hx⟩
+  · exact ⟨h, fun x hx => hx⟩
+
+theorem delUnlatest_wf {n : Nat} {bk bk1 : Bucket} (q : Quirks) (now : Nat) (k : String) (h : BucketWF n bk)
+    (h1 : BucketWF n bk1) (hsub : ∀ x ∈ bk1.rows, x ∈ bk.rows) :
+    BucketWF n (delUnlatest q now bk bk1 k) ∧ NoLatest (delUnlatest q now bk bk1 k).rows k := by
+  have ok := bucketWF_iff.1 h
+  unfold delUnlatest
+  split
+  · rename_i r hr
+    obtain ⟨hmem, hk, hl⟩ := latestRow_some hr
+    have honly : OnlyLatest bk1.rows k r.rowId := fun x hx hxk hxl => by
+      have := ok.onlyLatest hmem hl x (hsub x hx)
+      rw [hk] at this; exact this hxk hxl
+    split
+    · rename_i hany
+      obtain ⟨x, hx, hid⟩ := List.any_eq_true.1 hany
+      have hxr : x = r := ok.inj (hsub x hx) hmem (by simpa using hid)
+      subst hxr
+      rw [unlatest_eq]
+      refine ⟨h1.replaceRow_same hx rfl rfl (fun h => by cases h), ?_⟩
+      rw [replaceRow_rows]
+      exact OnlyLatest.replace_noLatest honly rfl
+    · rename_i hany
+      refine ⟨h1, ?_⟩
+      intro x hx hxk
+      cases hxl : x.latest
+      · rfl
+      · exfalso; apply hany
+        exact List.any_eq_true.2 ⟨x, hx, by simpa using honly x hx hxk hxl⟩
+  · rename_i hr
+    exact ⟨h1, fun x hx => latestRow_none hr x (hsub x hx)⟩
+
+theorem deleteOp_wf (q : Quirks) {s : State} {bk : Bucket} (k : String) (vid : Option (Option Nat)) (im : IfMatch)
+    (hwf : WF s) (h : BucketWF s.nextRow bk) : WF (deleteOp q s bk k vid im).1 := by
+  cases vid with
+  | some v =>
+    rw [deleteOp_some_eq]
+    split
+    · split <;> exact hwf
+    · split
+      · exact hwf
+      · rename_i r hr
+        obtain ⟨hmem, hk, _⟩ := rowByVid_some hr
+        split
+        · exact hwf
+        · exact wf_of_setBucket hwf rfl (Nat.le_refl _) (delVersion_wf q _ h hmem hk)
+  | none =>
+    rw [deleteOp_none_eq]
+    split
+    · split <;> exact hwf
+    · split
+      · exact hwf
+      · split
+        · obtain ⟨h1, hsub⟩ := delNull_wf k h
+          obtain ⟨hw2, hno2⟩ := delUnlatest_wf q s.clock k h h1 hsub
+          exact wf_of_setBucket hwf rfl (Nat.le_succ _) (hw2.addRow rfl (fun _ => hno2))
+        · split
+          · exact wf_of_setBucket hwf rfl (Nat.le_refl _) (h.removeRow _)
+          · exact hwf
+
+/-! ### (D) the remaining operations -/
+
+theorem wf_init : WF ({} : State) := by
+  intro bk hbk; cases hbk
+
+theorem bucketWF_empty (n : Nat) (b : String) : BucketWF n { name := b } :=
+  bucketWF_iff.2 (RowsOK.nil n)
+
+theorem wf_mkb (q : Quirks) (s : State) (b : String) (h : WF s) : WF (step q s (.mkb b)).1 := by
+  simp only [step, stepT]
+  split
+  · exact h
+  · intro bk hbk
+    rcases List.mem_append.1 hbk with hbk | hbk
+    · exact h bk hbk
+    · rw [List.mem_singleton.1 hbk]; exact bucketWF_empty _ _
+
+theorem wf_rmb (q : Quirks) (s : State) (b : String) (h : WF s) : WF (step q s (.rmb b)).1 := by
+  simp only [step, stepT]
+  split
+  · exact h
+  · split
+    · exact h
+    · intro bk hbk
+      exact h bk (List.mem_filter.1 hbk).1
+
+theorem wf_setVer (q : Quirks) (s : State) (b : String) (v : Versioning) (h : WF s) :
+    WF (step q s (.setVer b v)).1 := by
+  simp only [step, stepT]
+  split
+  · exact h
+  · rename_i bk hbk
+    exact wf_of_setBucket (wf_tick.2 h) rfl (Nat.le_refl _) (BucketWF.of_rows (h.bucket hbk) rfl)
+
+/-- the read-only operations leave only the clock tick -/
+theorem step_get_state (q : Quirks) (s : State) (b k : String) (vid : Option (Option Nat)) :
+    (step q s (.get b k vid)).1 = tick s := by
+  simp only [step, stepT]; repeat' split
+  all_goals rfl
+theorem step_head_state (q : Quirks) (s : State) (b k : String) (vid : Option (Option Nat)) :
+    (step q s (.head b k vid)).1 = tick s := by
+  simp only [step, stepT]; repeat' split
+  all_goals rfl
+theorem step_getTags_state (q : Quirks) (s : State) (b k : String) (vid : Option (Option Nat)) :
+    (step q s (.getTags b k vid)).1 = tick s := by
+  simp only [step, stepT]; repeat' split
+  all_goals rfl
+theorem step_list_state (q : Quirks) (s : State) (b : String) : (step q s (.list b)).1 = tick s := by
+  simp only [step, stepT]; repeat' split
+  all_goals rfl
+theorem step_listVersions_state (q : Quirks) (s : State) (b : String) :
+    (step q s (.listVersions b)).1 = tick s := by
+  simp only [step, stepT]; repeat' split
+  all_goals rfl
+theorem step_listBuckets_state (q : Quirks) (s : State) : (step q s .listBuckets).1 = tick s := rfl
+
+theorem wf_del (q : Quirks) (s : State) (b k : String) (vid : Option (Option Nat)) (im : IfMatch) (h : WF s) :
+    WF (step q s (.del b k vid im)).1 := by
+  rw [step_del_eq]
+  split
+  · exact h
+  · rename_i bk hbk
+    exact deleteOp_wf q k vid im (wf_tick.2 h) (h.bucket hbk)
+
+/-- upload bookkeeping does not touch the rows -/
+theorem wf_mpu (q : Quirks) (s : State) (b k : String) (o : WriteOpts) (h : WF s) : WF (step q s (.mpu b k o)).1 := by
+  simp only [step, stepT]
+  split
+  · exact h
+  · rename_i bk hbk
+    exact wf_of_setBucket (wf_tick.2 h) rfl (Nat.le_refl _) (BucketWF.of_rows (h.bucket hbk) rfl)
+
+theorem wf_uploadPart (q : Quirks) (s : State) (b k : String) (uid n : Nat) (body : Bytes) (h : WF s) :
+    WF (step q s (.uploadPart b k uid n body)).1 := by
+  simp only [step, stepT]
+  split
+  · exact h
+  · rename_i bk hbk
+    split
+    · exact h
+    · exact wf_of_setBucket (wf_tick.2 h) rfl (Nat.le_refl _) (BucketWF.of_rows (h.bucket hbk) rfl)
+
+theorem wf_abort (q : Quirks) (s : State) (b k : String) (uid : Nat) (h : WF s) :
+    WF (step q s (.abort b k uid)).1 := by
+  simp only [step, stepT]
+  split
+  · exact h
+  · rename_i bk hbk
+    split
+    · exact h
+    · exact wf_of_setBucket (wf_tick.2 h) rfl (Nat.le_refl _) (BucketWF.of_rows (h.bucket hbk) rfl)
+
+/-- re-saving a resolved row with other tags / class keeps id, key and latest flag -/
+theorem wf_putTags (q : Quirks) (s : State) (b k : String) (vid : Option (Option Nat)) (tags : Pairs) (h : WF s) :
+    WF (step q s (.putTags b k vid tags)).1 := by
+  simp only [step, stepT]
+  split
+  · exact h
+  · rename_i bk hbk
+    split
+    · exact h
+    · rename_i r hr
+      exact wf_of_setBucket (wf_tick.2 h) rfl (Nat.le_refl _)
+        ((h.bucket hbk).replaceRow_same (resolve_ok hr).1 rfl rfl (fun h => h))
+
+theorem wf_delTags (q : Quirks) (s : State) (b k : String) (vid : Option (Option Nat)) (h : WF s) :
+    WF (step q s (.delTags b k vid)).1 := by
+  simp only [step, stepT]
+  split
+  · exact h
+  · rename_i bk hbk
+    split
+    · exact h
+    · rename_i r hr
+      exact wf_of_setBucket (wf_tick.2 h) rfl (Nat.le_refl _)
+        ((h.bucket hbk).replaceRow_same (resolve_ok hr).1 rfl rfl (fun h => h))
+
+/-! ### (D) transition, copy, append (interface: `step_transition_cases`, `step_copy_cases`,
+`step_append_eq` are the lemmas that unfold `step`) -/
+
+/-- the live object an append extends -/
+def appendExisting (bk : Bucket) (k : String) : Option Row :=
+  match latestRow bk k with | some r => if r.dm then none else some r | none => none
+
+/-- the row an append in a non-Enabled bucket extends in place -/
+def appendTarget (q : Quirks) (bk : Bucket) (k : String) : Option Row :=
+  if q.appendLatestInPlace then latestRow bk k else
+    (match appendExisting bk k with | some r => if r.vid.isNone then some r else none | none => none)
+
+def appendOffOk (bk : Bucket) (k : String) (off : Option Nat) : Bool :=
+  match off with
+  | none => true
+  | some n => match appendExisting bk k with | none => n == 0 | some r => n == r.size
+
+def appendParts (bk : Bucket) (k : String) (body : Bytes) : List Bytes :=
+  (match appendExisting bk k with | some r => r.parts | none => []) ++ [body]
+
+def appendOptsEnabled (q : Quirks) (bk : Bucket) (k : String) : WriteOpts :=
+  match appendExisting bk k with
+  | some r => if q.appendEnabledDropsMeta then { ct := r.ct }
+              else { ct := r.ct, md := r.md, tags := r.tags, cls := r.cls }
+  | none => {}
+
+def appendOptsRef (bk : Bucket) (k : String) : WriteOpts :=
+  match appendExisting bk k with
+  | some r => { ct := r.ct, md := r.md, tags := r.tags, cls := r.cls }
+  | none => {}
+
+def appendInPlaceRow (now : Nat) (r : Row) (parts : List Bytes) : Row :=
+  { r with dm := false, latest := true, updated := now, wrote := now, parts := parts, etag := multiETag parts,
+           seqBase := if r.parts.isEmpty then 0 else r.seqBase }
+
+def appendNewRow (s : State) (k : String) (parts : List Bytes) : Row :=
+  { rowId := s.nextRow, key := k, vid := none, latest := true, created := s.clock, updated := s.clock,
+    wrote := s.clock, parts := parts, etag := multiETag parts }
+
+theorem step_append_eq (q : Quirks) (s : State) (b k : String) (body : Bytes) (off : Option Nat) :
+    step q s (.append b k body off) =
+      match findBucket s b with
+      | none => (tick s, .err .noSuchBucket)
+      | some bk =>
+        if !appendOffOk bk k off then (tick s, .err .invalidWriteOffset)
+        else if bk.ver == .enabled then
+          match putRow q (tick s) bk k { parts := appendParts bk k body, etag := multiETag (appendParts bk k body),
+                                         o := appendOptsEnabled q bk k } false .none with
+          | .error e => (tick s, .err e)
+          | .ok (s', _) => (s', .appended (multiETag (appendParts bk k body)) (appendParts bk k body).flatten.length)
+        else
+          match appendTarget q bk k with
+          | some r =>
+            if r.seqBase == 1 && !r.parts.isEmpty then (tick s, .err .other) else
+            (setBucket (tick s) (replaceRow bk (appendInPlaceRow (tick s).clock r (appendParts bk k body))),
+             .appended (multiETag (appendParts bk k body)) (appendParts bk k body).flatten.length)
+          | none =>
+            if q.appendLatestInPlace then
+              ({ setBucket (tick s) (addRow bk (appendNewRow (tick s) k (appendParts bk k body))) with
+                  nextRow := s.nextRow + 1 },
+               .appended (multiETag (appendParts bk k body)) (appendParts bk k body).flatten.length)
+            else
+              match putRow q (tick s) bk k { parts := appendParts bk k body, etag := multiETag (appendParts bk k body),
+                                             o := appendOptsRef bk k } false .none with
+              | .error e => (tick s, .err e)
+              | .ok (s', _) => (s', .appended (multiETag (appendParts bk k body)) (appendParts bk k body).flatten.length) :=
+  rfl
+
+
+theorem step_transition_cases (q : Quirks) (s : State) (b k cls : String) (vid : Option (Option Nat)) :
+    (step q s (.transition b k cls vid)).1 = tick s ∨
+    ∃ bk r r', findBucket (tick s) b = some bk ∧ r ∈ bk.rows ∧ r'.rowId = r.rowId ∧ r'.key = r.key ∧
+      r'.latest = r.latest ∧ r'.dm = r.dm ∧ r'.vid = r.vid ∧
+      (step q s (.transition b k cls vid)).1 = setBucket (tick s) (replaceRow bk r') := by
+  cases vid with
+  | none =>
+    simp only [step, stepT]
+    repeat' split
+    all_goals first
+      | exact .inl rfl
+      | (refine .inr ⟨_, ?r, _, ‹_›, ?h, ?_, ?_, ?_, ?_, ?_, rfl⟩; case h => exact (latestRow_some ‹_›).1
+         all_goals rfl)
+  | some v =>
+    simp only [step, stepT]
+    repeat' split
+    all_goals first
+      | exact .inl rfl
+      | (refine .inr ⟨_, ?r2, _, ‹_›, ?h2, ?_, ?_, ?_, ?_, ?_, rfl⟩; case h2 => exact (rowByVid_some ‹_›).1
+         all_goals rfl)
+
+theorem step_copy_cases (q : Quirks) (s : State) (sb sk : String) (svid : Option (Option Nat)) (db dk : String)
+    (rm rt : Bool) (o : WriteOpts) :
+    (step q s (.copy sb sk svid db dk rm rt o)).1 = tick s ∨
+    ∃ dbk n s' vid, findBucket (tick s) db = some dbk ∧ putRow q (tick s) dbk dk n false .none = .ok (s', vid) ∧
+      (step q s (.copy sb sk svid db dk rm rt o)).1 = s' := by
+  simp only [step, stepT]
+  repeat' split
+  all_goals first
+    | exact .inl rfl
+    | exact .inr ⟨_, _, _, _, ‹_›, ‹_›, rfl⟩
+
+
+theorem appendTarget_some {q : Quirks} {bk : Bucket} {k : String} {r : Row} (h : appendTarget q bk k = some r) :
+    latestRow bk k = some r := by
+  unfold appendTarget appendExisting at h
+  split at h
+  · exact h
+  · cases hc : latestRow bk k with
+    | none => simp [hc] at h
+    | some r' =>
+      simp only [hc] at h
+      split at h
+      · rename_i r'' he
+        split at he
+        · cases he
+        · cases he
+          split at h
+          · cases h; rfl
+          · cases h
+      · cases h
+
+theorem appendTarget_none {q : Quirks} {bk : Bucket} {k : String} (h : appendTarget q bk k = none)
+    (hq : q.appendLatestInPlace = true) : latestRow bk k = none := by
+  unfold appendTarget at h
+  rw [if_pos hq] at h; exact h
+
+theorem wf_transition (q : Quirks) (s : State) (b k cls : String) (vid : Option (Option Nat)) (h : WF s) :
+    WF (step q s (.transition b k cls vid)).1 := by
+  rcases step_transition_cases q s b k cls vid with he | ⟨bk, r, r', hbk, hr, hid, hk, hl, _, _, he⟩
+  · rw [he]; exact h
+  · rw [he]
+    exact wf_of_setBucket (wf_tick.2 h) rfl (Nat.le_refl _)
+      (((wf_tick.2 h).bucket hbk).replaceRow_same hr hid hk (fun h' => by rw [← hl]; exact h'))
+
+theorem wf_copy (q : Quirks) (s : State) (sb sk : String) (svid : Option (Option Nat)) (db dk : String)
+    (rm rt : Bool) (o : WriteOpts) (h : WF s) : WF (step q s (.copy sb sk svid db dk rm rt o)).1 := by
+  rcases step_copy_cases q s sb sk svid db dk rm rt o with he | ⟨dbk, n, s', vid, hbk, hp, he⟩
+  · rw [he]; exact h
+  · rw [he]
+    exact putRow_ok_wf hp (wf_tick.2 h) ((wf_tick.2 h).bucket hbk)
+
+theorem wf_append (q : Quirks) (s : State) (b k : String) (body : Bytes) (off : Option Nat) (h : WF s) :
+    WF (step q s (.append b k body off)).1 := by
+  have ht : WF (tick s) := wf_tick.2 h
+  rw [step_append_eq]
+  split
+  · exact h
+  · rename_i bk hbk
+    have hb : BucketWF (tick s).nextRow bk := h.bucket hbk
+    split
+    · exact h
+    · split
+      · split
+        · exact h
+        · rename_i hp
+          exact putRow_ok_wf hp ht hb
+      · split
+        · rename_i r hr
+          obtain ⟨hmem, _, hl⟩ := latestRow_some (appendTarget_some hr)
+          split
+          · exact h
+          · exact wf_of_setBucket ht rfl (Nat.le_refl _) (hb.replaceRow_same hmem rfl rfl (fun _ => hl))
+        · rename_i hr
+          split
+          · rename_i hq
+            exact wf_of_setBucket ht rfl (Nat.le_succ _)
+              (hb.addRow rfl (fun _ => latestRow_none (appendTarget_none hr hq)))
+          · split
+            · exact h
+            · rename_i hp
+              exact putRow_ok_wf hp ht hb
+
+/-! ### (D) every operation -/
+
+theorem wf_step (q : Quirks) (s : State) (op : Op) (h : WF s) : WF (step q s op).1 := by
+  cases op with
+  | mkb b => exact wf_mkb q s b h
+  | rmb b => exact wf_rmb q s b h
+  | setVer b v => exact wf_setVer q s b v h
+  | put b k body o inm im => exact write_wf (isWrite_put ..) h
+  | get b k vid => rw [step_get_state]; exact h
+  | head b k vid => rw [step_head_state]; exact h
+  | del b k vid im => exact wf_del q s b k vid im h
+  | copy sb sk svid db dk rm rt o => exact wf_copy q s sb sk svid db dk rm rt o h
+  | append b k body off => exact wf_append q s b k body off h
+  | mpu b k o => exact wf_mpu q s b k o h
+  | uploadPart b k uid n body => exact wf_uploadPart q s b k uid n body h
+  | complete b k uid declared inm im => exact write_wf (isWrite_complete ..) h
+  | abort b k uid => exact wf_abort q s b k uid h
+  | getTags b k vid => rw [step_getTags_state]; exact h
+  | putTags b k vid tags => exact wf_putTags q s b k vid tags h
+  | delTags b k vid => exact wf_delTags q s b k vid h
+  | transition b k cls vid => exact wf_transition q s b k cls vid h
+  | list b => rw [step_list_state]; exact h
+  | listVersions b => rw [step_listVersions_state]; exact h
+  | listBuckets => rw [step_listBuckets_state]; exact h
+
+theorem wf_run (q : Quirks) (s : State) (ops : List Op) (h : WF s) : WF (run q s ops).1 := by
+  induction ops generalizing s with
+  | nil => exact h
+  | cons op ops ih => rw [run_cons]; exact ih _ (wf_step q s op h)
+
+/-- every state reachable from the empty one is well-formed -/
+theorem wf_reachable (q : Quirks) (ops : List Op) : WF (run q {} ops).1 := wf_run q {} ops wf_init
+
+/-! ### (F) an If-None-Match put on an absent key succeeds
+
+`putRow` refuses an If-None-Match write in a non-Enabled bucket when the null version of the key is
+the CURRENT row. On an absent key of a well-formed bucket that can only be a null-version delete
+marker; delete markers always carry a fresh version id (`MarkersVersioned`, an invariant of every
+operation), so in reachable states the put always succeeds. -/
+
+/-- the latest row of `k`, if it is a delete marker, is not the null version -/
+def NoNullMarker (s : State) (b k : String) : Prop :=
+  ∀ bk r, findBucket s b = some bk → latestRow bk k = some r → r.dm = true → r.vid ≠ none
+
+theorem noNullMarker_tick {s : State} {b k : String} : NoNullMarker (tick s) b k ↔ NoNullMarker s b k := Iff.rfl
+
+/-- after the conditional-write lock the null version is not the current row, when the key is absent and
+its latest row is no null-version delete marker -/
+theorem nullRow_lockRow_not_latest {n : Nat} {bk : Bucket} {k : String} (q : Quirks) (now : Nat) (inm : Bool)
+    (im : IfMatch) (hwf : BucketWF n bk) (ha : live (latestRow bk k) = false)
+    (hm : ∀ r, latestRow bk k = some r → r.dm = true → r.vid ≠ none) :
+    (nullRow (lockRow q now bk k inm im) k).any (·.latest) = false := by
+  have ok := bucketWF_iff.1 hwf
+  cases hy : nullRow (lockRow q now bk k inm im) k with
+  | none => rfl
+  | some y =>
+    simp only [Option.any_some]
+    cases hyl : y.latest with
+    | false => rfl
+    | true =>
+      exfalso
+      obtain ⟨hymem, hyk, hyv⟩ := rowByVid_some (nullRow_eq _ k ▸ hy)
+      unfold lockRow at hymem
+      cases hc : latestRow bk k with
+      | none =>
+        simp only [hc] at hymem
+        rw [latestRow_none hc y hymem hyk] at hyl; cases hyl
+      | some r =>
+        obtain ⟨hmem, hk, hl⟩ := latestRow_some hc
+        have hdm : r.dm = true := by
+          cases hd : r.dm with
+          | true => rfl
+          | false => simp [hc, live, hd] at ha
+        have hv := hm r hc hdm
+        have honly : OnlyLatest bk.rows k r.rowId := hk ▸ ok.onlyLatest hmem hl
+        simp only [hc] at hymem
+        split at hymem
+        · rw [replaceRow_rows] at hymem
+          rcases mem_replaceRows hymem with ⟨rfl, _⟩ | ⟨hy', hne⟩
+          · exact hv (by rw [← touch_vid q now r]; exact hyv)
+          · exact hne (by simpa [touch_rowId] using honly y hy' hyk hyl)
+        · have : y = r := ok.inj hymem hmem (honly y hymem hyk hyl)
+          exact hv (this ▸ hyv)
+
+theorem putRow_inm_ok {q : Quirks} {s : State} {bk : Bucket} {k : String} {n : NewObj} {inm : Bool} {im : IfMatch}
+    (him : ifMatchOk im (latestRow bk k) = true) (ha : live (latestRow bk k) = false)
+    (hn : (nullRow (lockRow q s.clock bk k inm im) k).any (·.latest) = false) :
+    putRow q s bk k n inm im = .ok (install q s (lockRow q s.clock bk k inm im) k n) := by
+  rw [putRow_eq]
+  simp [him, ha, hn]
+
+theorem present_false_live {s : State} {b k : String} {bk : Bucket} (hb : findBucket s b = some bk)
+    (ha : present s b k = false) : live (latestRow bk k) = false := by
+  simpa only [present_eq, hb] using ha
+
+theorem present_true_live {s : State} {b k : String} (hp : present s b k = true) :
+    ∃ bk, findBucket s b = some bk ∧ live (latestRow bk k) = true := by
+  rw [present_eq] at hp
+  split at hp
+  · rename_i bk hbk; exact ⟨bk, hbk, hp⟩
+  · cases hp
+
+/-- (F), precise: the If-None-Match put on an absent key writes the version `s.nextVid` (versioning
+enabled) or the null version -/
+theorem put_inm_absent_wrote (q : Quirks) (s : State) (b k : String) (body : Bytes) (o : WriteOpts) (bk : Bucket)
+    (hwf : WF s) (hb : findBucket s b = some bk) (ha : present s b k = false) (hm : NoNullMarker s b k) :
+    (step q s (.put b k body o true .none)).2 =
+      .wrote (if bk.ver = .enabled then some s.nextVid else none) (singleETag body) := by
+  rw [step_put_eq, hb]
+  have hn := nullRow_lockRow_not_latest q (tick s).clock true .none (hwf.bucket hb) (present_false_live hb ha)
+    (fun r hr hd => hm bk r hb hr hd)
+  simp only [putRow_inm_ok (ifMatchOk_none _) (present_false_live hb ha) hn, install_snd, lockRow_ver]
+  rfl
+
+/-- (F) -/
+theorem put_inm_absent_succeeds (q : Quirks) (s : State) (b k : String) (body : Bytes) (o : WriteOpts) (hwf : WF s)
+    (hb : (findBucket s b).isSome = true) (ha : present s b k = false) (hm : NoNullMarker s b k) :
+    ∃ vid, (step q s (.put b k body o true .none)).2 = .wrote vid (singleETag body) := by
+  cases hbk : findBucket s b with
+  | none => rw [hbk] at hb; cases hb
+  | some bk => exact ⟨_, put_inm_absent_wrote q s b k body o bk hwf hbk ha hm⟩
+
+/-- on a present key every If-None-Match put fails with PreconditionFailed and changes only the clock -/
+theorem put_inm_present_fails (q : Quirks) (s : State) (b k : String) (body : Bytes) (o : WriteOpts) (im : IfMatch)
+    (hp : present s b k = true) :
+    step q s (.put b k body o true im) = (tick s, .err .preconditionFailed) := by
+  obtain ⟨bk, hbk, hl⟩ := present_true_live hp
+  rw [step_put_eq, hbk]
+  have : putRow q (tick s) bk k { parts := [body], etag := singleETag body, o := o } true im
+      = .error .preconditionFailed := by
+    rw [putRow_eq]
+    split
+    · rfl
+    · simp [hl]
+  simp only [this]
+
+/-! ### (G) among If-None-Match puts to an absent key exactly the first wins -/
+
+theorem inm_puts_present_all_fail (q : Quirks) (b k : String) (bodies : List (Bytes × WriteOpts)) (s : State)
+    (hp : present s b k = true) :
+    (run q s (bodies.map fun (body, o) => Op.put b k body o true .none)).2
+      = List.replicate bodies.length (.err .preconditionFailed) := by
+  induction bodies generalizing s with
+  | nil => rfl
+  | cons x rest ih =>
+    obtain ⟨body, o⟩ := x
+    rw [List.map_cons, run_cons, put_inm_present_fails q s b k body o .none hp]
+    simp only [List.length_cons, List.replicate_succ]
+    rw [ih (tick s) (by rw [present_tick]; exact hp)]
+
+/-- cons form: the first put wins with the ETag of its body (version id: `s.nextVid` when versioning is
+enabled, else the null version), all later ones get PreconditionFailed -/
+theorem inm_puts_first_wins (q : Quirks) (s : State) (b k : String) (body : Bytes) (o : WriteOpts)
+    (rest : List (Bytes × WriteOpts)) (bk : Bucket) (hwf : WF s) (hb : findBucket s b = some bk)
+    (ha : present s b k = false) (hm : NoNullMarker s b k) :
+    (run q s (((body, o) :: rest).map fun (body, o) => Op.put b k body o true .none)).2
+      = .wrote (if bk.ver = .enabled then some s.nextVid else none) (singleETag body)
+          :: List.replicate rest.length (.err .preconditionFailed) := by
+  have hw := put_inm_absent_wrote q s b k body o bk hwf hb ha hm
+  rw [List.map_cons, run_cons, hw]
+  rw [inm_puts_present_all_fail q b k rest _ (put_wrote_present q s b k body o true .none _ _ hwf hw)]
+
+theorem inm_puts_exactly_first (q : Quirks) (s : State) (b k : String) (bodies : List (Bytes × WriteOpts)) (hwf : WF s)
+    (hb : (findBucket s b).isSome = true) (ha : present s b k = false) (hm : NoNullMarker s b k)
+    (hne : bodies ≠ []) :
+    (run q s (bodies.map fun (body, o) => Op.put b k body o true .none)).2
+      = .wrote (if ((findBucket s b).map (·.ver)) = some .enabled then some s.nextVid else none)
+            (singleETag (bodies.head hne).1)
+          :: List.replicate (bodies.length - 1) (.err .preconditionFailed) := by
+  cases hbk : findBucket s b with
+  | none => rw [hbk] at hb; cases hb
+  | some bk =>
+    cases bodies with
+    | nil => exact absurd rfl hne
+    | cons x rest =>
+      obtain ⟨body, o⟩ := x
+      rw [inm_puts_first_wins q s b k body o rest bk hwf hbk ha hm]
+      simp
+
+/-! ### before the fix 373419f: the hidden null version -/
+
+/-- `putRow` as it was before the fix: ANY null-version row of the key refused an If-None-Match write in a
+non-Enabled bucket, also one hidden under a delete marker -/
+def putRowAsIs (q : Quirks) (s : State) (bk : Bucket) (k : String) (n : NewObj) (inm : Bool) (im : IfMatch) :
+    Except Err (State × Option Nat) :=
+  if !ifMatchOk im (latestRow bk k) then .error .preconditionFailed
+  else if inm && live (latestRow bk k) then .error .preconditionFailed
+  else if inm && bk.ver != .enabled && (nullRow (lockRow q s.clock bk k inm im) k).isSome then
+    .error .preconditionFailed
+  else .ok (install q s (lockRow q s.clock bk k inm im) k n)
+
+/-- suspended bucket, null row not latest, delete marker latest -/
+def hiddenNullBucket : Bucket :=
+  { name := "b", ver := .suspended,
+    rows := [{ rowId := 0, key := "k", vid := none, latest := false, created := 1, updated := 1, wrote := 1,
+               parts := [[1]], etag := singleETag [1] },
+             { rowId := 1, key := "k", vid := some 0, dm := true, latest := true,
+               created := 2, updated := 2, wrote := 2 }] }
+def hiddenNullState : State := { buckets := [hiddenNullBucket], clock := 2, nextVid := 1, nextRow := 2 }
+
+example : WF hiddenNullState := by
+  unfold WF BucketWF; decide
+
+/-- the key is absent; the old `putRow` refused the If-None-Match write, the repaired one accepts it -/
+example : present hiddenNullState "b" "k" = false ∧
+    (putRowAsIs Quirks.code hiddenNullState hiddenNullBucket "k" { parts := [[2]], etag := singleETag [2] } true .none).toBool
+      = false ∧
+    (putRow Quirks.code hiddenNullState hiddenNullBucket "k" { parts := [[2]], etag := singleETag [2] } true .none).toBool
+      = true ∧
+    (step Quirks.code hiddenNullState (.put "b" "k" [2] {} true .none)).2 = .wrote none (singleETag [2]) ∧
+    (step Quirks.none hiddenNullState (.put "b" "k" [2] {} true .none)).2 = .wrote none (singleETag [2]) := by decide
+
+/-! ### delete markers always carry a version id: an invariant of every operation -/
+
+/-- no delete marker is a null version -/
+def BucketMV (bk : Bucket) : Prop := ∀ r ∈ bk.rows, r.dm = true → r.vid ≠ none
+def MarkersVersioned (s : State) : Prop := ∀ bk ∈ s.buckets, BucketMV bk
+
+theorem MarkersVersioned.noNullMarker {s : State} (h : MarkersVersioned s) (b k : String) : NoNullMarker s b k :=
+  fun bk r hb hr hd => h bk (findBucket_mem hb) r (latestRow_some hr).1 hd
+
+theorem mv_tick {s : State} : MarkersVersioned (tick s) ↔ MarkersVersioned s := Iff.rfl
+
+theorem mv_of_setBucket {s s' : State} {bk' : Bucket} (h : MarkersVersioned s)
+    (hb : s'.buckets = (setBucket s bk').buckets) (hbk : BucketMV bk') : MarkersVersioned s' := by
+  intro x hx
+  rw [hb] at hx
+  rcases mem_setBucket hx with hx | rfl
+  · exact h x hx
+  · exact hbk
+
+theorem BucketMV.of_rows {bk bk' : Bucket} (h : BucketMV bk) (hr : bk'.rows = bk.rows) : BucketMV bk' := by
+  unfold BucketMV; rw [hr]; exact h
+
+theorem BucketMV.replaceRow {bk : Bucket} (h : BucketMV bk) {r : Row} (hr : r.dm = true → r.vid ≠ none) :
+    BucketMV (replaceRow bk r) := by
+  intro y hy
+  rw [replaceRow_rows] at hy
+  rcases mem_replaceRows hy with ⟨rfl, _⟩ | ⟨hy', _⟩
+  · exact hr
+  · exact h y hy'
+
+theorem BucketMV.addRow {bk : Bucket} (h : BucketMV bk) {r : Row} (hr : r.dm = true → r.vid ≠ none) :
+    BucketMV (addRow bk r) := by
+  intro y hy
+  rw [addRow_rows] at hy
+  rcases List.mem_append.1 hy with hy | hy
+  · exact h y hy
+  · rw [List.mem_singleton.1 hy]; exact hr
+
+theorem BucketMV.removeRow {bk : Bucket} (h : BucketMV bk) (id : Nat) : BucketMV (removeRow bk id) := by
+  intro y hy
+  rw [removeRow_rows] at hy
+  exact h y (List.mem_filter.1 hy).1
+
+theorem unlatestCur_mv {bk : Bucket} (q : Quirks) (now : Nat) (k : String) (h : BucketMV bk) :
+    BucketMV (unlatestCur q now bk k) := by
+  unfold unlatestCur
+  split
+  · rename_i r hr
+    rw [unlatest_eq]
+    exact h.replaceRow (h r (latestRow_some hr).1)
+  · exact h
+
+theorem install_mv {s : State} {bk : Bucket} (q : Quirks) (k : String) (n : NewObj) (hs : MarkersVersioned s)
+    (h : BucketMV bk) : MarkersVersioned (install q s bk k n).1 := by
+  have h2 := unlatestCur_mv q s.clock k h
+  have hrow : ∀ id v c, (mkRow id k v c s.clock n).dm = true → (mkRow id k v c s.clock n).vid ≠ none :=
+    fun id v c hd => by rw [mkRow_dm] at hd; cases hd
+  unfold install
+  simp only []
+  split
+  · exact mv_of_setBucket hs rfl (h2.addRow (hrow _ _ _))
+  · split
+    · exact mv_of_setBucket hs rfl (h2.replaceRow (hrow _ _ _))
+    · exact mv_of_setBucket hs rfl (h2.addRow (hrow _ _ _))
+
+theorem lockRow_mv {bk : Bucket} (q : Quirks) (now : Nat) (k : String) (inm : Bool) (im : IfMatch) (h : BucketMV bk) :
+    BucketMV (lockRow q now bk k inm im) := by
+  unfold lockRow; split
+  · rename_i r hr
+    split
+    · exact h.replaceRow (h r (latestRow_some hr).1)
+    · exact h
+  · exact h
+
+theorem putRow_ok_mv {q : Quirks} {s : State} {bk : Bucket} {k : String} {n : NewObj} {inm : Bool} {im : IfMatch}
+    {s' : State} {vid : Option Nat} (hp : putRow q s bk k n inm im = .ok (s', vid)) (hs : MarkersVersioned s)
+    (h : BucketMV bk) : MarkersVersioned s' := by
+  have hi := putRow_ok_install hp
+  have : s' = (install q s (lockRow q s.clock bk k inm im) k n).1 := by rw [← hi]
+  rw [this]
+  exact install_mv q k n hs (lockRow_mv q s.clock k inm im h)
+
+theorem write_mv {b k : String} {inm : Bool} {im : IfMatch} {op : Op} {q : Quirks} {s : State}
+    (hop : IsWrite b k inm im op) (hs : MarkersVersioned s) : MarkersVersioned (step q s op).1 := by
+  rcases write_cases hop q s with ⟨e, he⟩ | ⟨bk, bk0, n, s', v, hbk, _, _, hrows, hp, he⟩
+  · rw [he]; exact hs
+  · rw [he]
+    exact putRow_ok_mv hp (mv_tick.2 hs) ((hs bk (findBucket_mem hbk)).of_rows hrows)
+
+theorem promote_mv {bk : Bucket} (q : Quirks) (now : Nat) (k : String) (h : BucketMV bk) :
+    BucketMV (promote q now bk k) := by
+  unfold promote
+  simp only []
+  split
+  · exact h
+  · rename_i r hr
+    exact h.replaceRow (h r (List.mem_filter.1 (maxBy_mem hr)).1)
+
+theorem deleteOp_mv (q : Quirks) {s : State} {bk : Bucket} (k : String) (vid : Option (Option Nat)) (im : IfMatch)
+    (hs : MarkersVersioned s) (h : BucketMV bk) : MarkersVersioned (deleteOp q s bk k vid im).1 := by
+  cases vid with
+  | some v =>
+    rw [deleteOp_some_eq]
+    split
+    · split <;> exact hs
+    · split
+      · exact hs
+      · split
+        · exact hs
+        · refine mv_of_setBucket hs rfl ?_
+          unfold delVersion
+          split
+          · exact promote_mv q _ k (h.removeRow _)
+          · exact h.removeRow _
+  | none =>
+    rw [deleteOp_none_eq]
+    split
+    · split <;> exact hs
+    · split
+      · exact hs
+      · split
+        · have h1 : BucketMV (delNull bk k) := by
+            unfold delNull
+            split
+            · split
+              · exact h.removeRow _
+              · exact h
+            · exact h
+          have h2 : BucketMV (delUnlatest q s.clock bk (delNull bk k) k) := by
+            unfold delUnlatest
+            split
+            · rename_i r hr
+              split
+              · rw [unlatest_eq]; exact h1.replaceRow (h r (latestRow_some hr).1)
+              · exact h1
+            · exact h1
+          exact mv_of_setBucket hs rfl (h2.addRow (fun _ hv => by cases hv))
+        · split
+          · exact mv_of_setBucket hs rfl (h.removeRow _)
+          · exact hs
+
+theorem mv_init : MarkersVersioned ({} : State) := by
+  intro bk hbk; cases hbk
+
+theorem mv_step (q : Quirks) (s : State) (op : Op) (h : MarkersVersioned s) : MarkersVersioned (step q s op).1 := by
+  have ht : MarkersVersioned (tick s) := mv_tick.2 h
+  cases op with
+  | mkb b =>
+    simp only [step, stepT]
+    split
+    · exact h
+    · intro bk hbk
+      rcases List.mem_append.1 hbk with hbk | hbk
+      · exact h bk hbk
+      · rw [List.mem_singleton.1 hbk]; intro r hr; cases hr
+  | rmb b =>
+    simp only [step, stepT]
+    split
+    · exact h
+    · split
+      · exact h
+      · intro bk hbk
+        exact h bk (List.mem_filter.1 hbk).1
+  | setVer b v =>
+    simp only [step, stepT]
+    split
+    · exact h
+    · rename_i bk hbk
+      exact mv_of_setBucket ht rfl (BucketMV.of_rows (h bk (findBucket_mem hbk)) rfl)
+  | put b k body o inm im => exact write_mv (isWrite_put ..) h
+  | get b k vid => rw [step_get_state]; exact h
+  | head b k vid => rw [step_head_state]; exact h
+  | del b k vid im =>
+    rw [step_del_eq]
+    split
+    · exact h
+    · rename_i bk hbk
+      exact deleteOp_mv q k vid im ht (h bk (findBucket_mem hbk))
+  | copy sb sk svid db dk rm rt o =>
+    rcases step_copy_cases q s sb sk svid db dk rm rt o with he | ⟨dbk, n, s', vid, hbk, hp, he⟩
+    · rw [he]; exact h
+    · rw [he]; exact putRow_ok_mv hp ht (ht dbk (findBucket_mem hbk))
+  | append b k body off =>
+    rw [step_append_eq]
+    split
+    · exact h
+    · rename_i bk hbk
+      have hb : BucketMV bk := h bk (findBucket_mem hbk)
+      split
+      · exact h
+      · split
+        · split
+          · exact h
+          · rename_i hp; exact putRow_ok_mv hp ht hb
+        · split
+          · split
+            · exact h
+            · exact mv_of_setBucket ht rfl (hb.replaceRow (fun hd => by cases hd))
+          · split
+            · exact mv_of_setBucket ht rfl (hb.addRow (fun hd => by cases hd))
+            · split
+              · exact h
+              · rename_i hp; exact putRow_ok_mv hp ht hb
+  | mpu b k o =>
+    simp only [step, stepT]
+    split
+    · exact h
+    · rename_i bk hbk
+      exact mv_of_setBucket ht rfl (BucketMV.of_rows (h bk (findBucket_mem hbk)) rfl)
+  | uploadPart b k uid n body =>
+    simp only [step, stepT]
+    split
+    · exact h
+    · rename_i bk hbk
+      split
+      · exact h
+      · exact mv_of_setBucket ht rfl (BucketMV.of_rows (h bk (findBucket_mem hbk)) rfl)
+  | complete b k uid declared inm im => exact write_mv (isWrite_complete ..) h
+  | abort b k uid =>
+    simp only [step, stepT]
+    split
+    · exact h
+    · rename_i bk hbk
+      split
+      · exact h
+      · exact mv_of_setBucket ht rfl (BucketMV.of_rows (h bk (findBucket_mem hbk)) rfl)
+  | getTags b k vid => rw [step_getTags_state]; exact h
+  | putTags b k vid tags =>
+    simp only [step, stepT]
+    split
+    · exact h
+    · rename_i bk hbk
+      split
+      · exact h
+      · rename_i r hr
+        exact mv_of_setBucket ht rfl
+          ((h bk (findBucket_mem hbk)).replaceRow (h bk (findBucket_mem hbk) r (resolve_ok hr).1))
+  | delTags b k vid =>
+    simp only [step, stepT]
+    split
+    · exact h
+    · rename_i bk hbk
+      split
+      · exact h
+      · rename_i r hr
+        exact mv_of_setBucket ht rfl
+          ((h bk (findBucket_mem hbk)).replaceRow (h bk (findBucket_mem hbk) r (resolve_ok hr).1))
+  | transition b k cls vid =>
+    rcases step_transition_cases q s b k cls vid with he | ⟨bk, r, r', hbk, hr, _, _, _, hdm, hvid, he⟩
+    · rw [he]; exact h
+    · rw [he]
+      refine mv_of_setBucket ht rfl ((ht bk (findBucket_mem hbk)).replaceRow ?_)
+      rw [hdm, hvid]; exact ht bk (findBucket_mem hbk) r hr
+  | list b => rw [step_list_state]; exact h
+  | listVersions b => rw [step_listVersions_state]; exact h
+  | listBuckets => rw [step_listBuckets_state]; exact h
+
+theorem mv_run (q : Quirks) (s : State) (ops : List Op) (h : MarkersVersioned s) :
+    MarkersVersioned (run q s ops).1 := by
+  induction ops generalizing s with
+  | nil => exact h
+  | cons op ops ih => rw [run_cons]; exact ih _ (mv_step q s op h)
+
+theorem mv_reachable (q : Quirks) (ops : List Op) : MarkersVersioned (run q {} ops).1 := mv_run q {} ops mv_init
+
+/-- (G) in reachable states, without extra hypothesis: after any history `pre` from the empty state, among
+If-None-Match puts to an absent key of an existing bucket exactly the first wins -/
+theorem inm_puts_exactly_first_reachable (q : Quirks) (pre : List Op) (b k : String)
+    (bodies : List (Bytes × WriteOpts)) (hb : (findBucket (run q {} pre).1 b).isSome = true)
+    (ha : present (run q {} pre).1 b k = false) (hne : bodies ≠ []) :
+    (run q (run q {} pre).1 (bodies.map fun (body, o) => Op.put b k body o true .none)).2
+      = .wrote (if ((findBucket (run q {} pre).1 b).map (·.ver)) = some .enabled
+                then some (run q {} pre).1.nextVid else none)
+            (singleETag (bodies.head hne).1)
+          :: List.replicate (bodies.length - 1) (.err .preconditionFailed) :=
+  inm_puts_exactly_first q _ b k bodies (wf_reachable q pre) hb ha ((mv_reachable q pre).noNullMarker b k) hne
+
+/-- (F) in reachable states, without extra hypothesis -/
+theorem put_inm_absent_succeeds_reachable (q : Quirks) (pre : List Op) (b k : String) (body : Bytes) (o : WriteOpts)
+    (hb : (findBucket (run q {} pre).1 b).isSome = true) (ha : present (run q {} pre).1 b k = false) :
+    ∃ vid, (step q (run q {} pre).1 (.put b k body o true .none)).2 = .wrote vid (singleETag body) :=
+  put_inm_absent_succeeds q _ b k body o (wf_reachable q pre) hb ha ((mv_reachable q pre).noNullMarker b k)
+
 end Pithos.S3
